@@ -77,26 +77,66 @@ def fold_cond(repo: T.Any, mod: T.Any, e: ast.AST, env: T.Dict[str, T.Any]) -> T
         return None
 
 
+def _table_helper(mod: T.Any, loop: ast.While) -> T.Optional[T.Tuple[str, str, str]]:
+    """`X = self.h(..)` + `if X is not None: tid, mo = X ... else: <single character>` where Lexer.h walks the regex table and
+    returns (token id, match) for the first match, else None -> (X, tid, mo)."""
+    for st in loop.body:
+        if isinstance(st, ast.Assign) and isinstance(st.targets[0], ast.Name) and isinstance(st.value, ast.Call) \
+                and (attr_chain(st.value.func) or '').startswith('self.') and mod.has_func('Lexer.' + (attr_chain(st.value.func) or '')[5:]):
+            h = mod.func('Lexer.' + (attr_chain(st.value.func) or '')[5:])
+            fors = [f for f in h.body if isinstance(f, ast.For) and norm(f.iter) == 'self.token_specification' and isinstance(f.target, ast.Tuple) and len(f.target.elts) == 2]
+            rets = [r for r in walk_no_nested(h) if isinstance(r, ast.Return)]
+            if len(fors) != 1 or not rets:
+                continue
+            t0 = norm(fors[0].target.elts[0])
+            tup = [r for r in rets if isinstance(r.value, ast.Tuple) and len(r.value.elts) == 2 and norm(r.value.elts[0]) == t0]
+            none = [r for r in rets if r.value is None or (isinstance(r.value, ast.Constant) and r.value.value is None)]
+            if len(tup) + len(none) != len(rets) or not tup or any(not any(r is x for x in ast.walk(fors[0])) for r in tup):
+                continue
+            x = st.targets[0].id
+            for br in loop.body:
+                if isinstance(br, ast.If) and names_in(br.test) == {x} and br.orelse:
+                    pos = br.body if norm(br.test) in (x, f'{x} is not None') else br.orelse if norm(br.test) in (f'{x} is None', f'not {x}') else None
+                    if pos and isinstance(pos[0], ast.Assign) and isinstance(pos[0].targets[0], ast.Tuple) and len(pos[0].targets[0].elts) == 2 \
+                            and norm(pos[0].value) == x:
+                        return x, norm(pos[0].targets[0].elts[0]), norm(pos[0].targets[0].elts[1])
+    return None
+
+
 def lex_roles(mod: T.Any) -> T.Dict[str, T.Any]:
     """Names of the scanner's working variables, derived from their roles (not from their spelling): the loop guard gives the
     position, the regex-table loop the token id and the match object, the yielded Token(...) the value / line / line-start variables."""
     lex = mod.func('Lexer.lex')
     wl = [w for w in ast.walk(lex) if isinstance(w, ast.While)]
-    if len(wl) != 1 or not (isinstance(wl[0].test, ast.Compare) and isinstance(wl[0].test.left, ast.Name)):
+    if len(wl) != 1 or not (isinstance(wl[0].test, ast.Compare) and len(wl[0].test.ops) == 1):
+        raise Undecided('Lexer.lex: expected one scanning loop guarded by `<pos> < len(...)`')
+    pos_ = wl[0].test.left if isinstance(wl[0].test.left, ast.Name) else wl[0].test.comparators[0]
+    if not isinstance(pos_, ast.Name):
         raise Undecided('Lexer.lex: expected one scanning loop guarded by `<pos> < len(...)`')
     sl = [f for f in wl[0].body if isinstance(f, ast.For) and norm(f.iter) == 'self.token_specification']
-    if len(sl) != 1 or not sl[0].orelse or not (isinstance(sl[0].target, ast.Tuple) and len(sl[0].target.elts) == 2):
-        raise Undecided('Lexer.lex: regex table loop with single-character fallback not recognised')
-    tid = norm(sl[0].target.elts[0])
-    mo = [norm(st.targets[0]) for st in ast.walk(sl[0]) if isinstance(st, ast.Assign) and isinstance(st.value, ast.Call)
-          and call_method(st.value) == 'match' and isinstance(st.targets[0], ast.Name)]
+    sel = None
+    if not sl:
+        # the table loop extracted into a helper returning (token id, match) or None
+        got = _table_helper(mod, wl[0])
+        if got is None:
+            raise Undecided('Lexer.lex: regex table loop with single-character fallback not recognised')
+        sel, tid, mo0 = got
+        sl = [None]  # type: ignore[list-item]
+        mo = [mo0]
+    else:
+        if len(sl) != 1 or not sl[0].orelse or not (isinstance(sl[0].target, ast.Tuple) and len(sl[0].target.elts) == 2):
+            raise Undecided('Lexer.lex: regex table loop with single-character fallback not recognised')
+        tid = norm(sl[0].target.elts[0])
+        mo = [norm(st.targets[0]) for st in ast.walk(sl[0]) if isinstance(st, ast.Assign) and isinstance(st.value, ast.Call)
+              and call_method(st.value) == 'match' and isinstance(st.targets[0], ast.Name)]
+        mo += [st.target.id for st in ast.walk(sl[0]) if isinstance(st, ast.NamedExpr) and isinstance(st.value, ast.Call) and call_method(st.value) == 'match']
     ys = [y.value for y in ast.walk(lex) if isinstance(y, ast.Yield) and isinstance(y.value, ast.Call) and norm(y.value.func) == 'Token']
     if len(ys) != 1 or len(mo) != 1:
         raise Undecided('Lexer.lex: the single `yield Token(...)` / the regex match assignment was not recognised')
     fields = [st.target.id for st in mod.cls('Token').body if isinstance(st, ast.AnnAssign) and isinstance(st.target, ast.Name)]
     given: T.Dict[str, ast.AST] = dict(zip(fields, ys[0].args))
     given.update({k.arg: k.value for k in ys[0].keywords if k.arg})
-    out: T.Dict[str, T.Any] = {'lex': lex, 'while': wl[0], 'spec_loop': sl[0], 'tid': tid, 'mo': mo[0], 'loc': wl[0].test.left.id}
+    out: T.Dict[str, T.Any] = {'lex': lex, 'while': wl[0], 'spec_loop': sl[0], 'sel': sel, 'tid': tid, 'mo': mo[0], 'loc': pos_.id}
     for role in ('tid', 'value', 'lineno', 'line_start'):
         e = resolve_locals(lex, given.get(role))
         if not isinstance(e, ast.Name):
@@ -118,23 +158,32 @@ def _feasible(ctx: RuleCtx, mod: T.Any, p: Path, tid: str, mode: str, spec_loop:
     took_loop = False
     info: T.Dict[str, T.Any] = {'assigned': [], 'guards': [], 'stmts': []}
     for ev in p.events:
-        if ev.kind == 'iter' and ev.node is spec_loop:
+        if ev.kind == 'iter' and spec_loop is not None and ev.node is spec_loop:
             if ev.val == 'iter':
                 took_loop = True
             continue
         if ev.kind == 'cond':
             names = names_in(ev.node)
-            if norm(ev.node) == R['mo']:
+            if R.get('sel') and names == {R['sel']}:
+                t = norm(ev.node)
+                is_regex = ev.val if t in (R['sel'], f"{R['sel']} is not None") else (not ev.val) if t in (f"{R['sel']} is None",) else None
+                if is_regex is None:
+                    raise Undecided(f'Lexer.lex: test `{t}` on the table-lookup result')
+                if is_regex != (mode == 'regex'):
+                    return None
+                took_loop = True
+                continue
+            if norm(ev.node) == R['mo'] or (isinstance(ev.node, ast.NamedExpr) and ev.node.target.id == R['mo']):
                 if mode == 'regex' and not ev.val:
                     return None
                 if mode == 'single' and ev.val:
                     return None
                 continue
-            if R['tid'] in names and names <= {R['tid']} and cur is not None:
-                v = fold_cond(ctx.repo, mod, ev.node, {R['tid']: cur})
+            if R['tid'] in names and cur is not None:
+                v = fold_cond(ctx.repo, mod, ev.node, {R['tid']: cur})    # other names may be module-level constant tables
                 if v is None:
-                    raise Undecided(f'Lexer.lex: cannot evaluate `{short(ev.node)}` for token id {cur}')
-                if v != ev.val:
+                    info.setdefault('open', []).append(ev.node)           # a test on the token id that cannot be decided
+                elif v != ev.val:
                     return None
                 continue
             if R['tid'] in names and cur is None:
@@ -266,6 +315,10 @@ def check_lines(ctx: RuleCtx) -> None:
         none_unguarded = [i for i in infos if not i['assigned'] and not _newline_guard(i)]
         arm = _arm_test(lex, tid, ctx, mod, R) if mode == 'regex' else f"tid == '{tid}' (single character)"
         key = norm(arm) if not isinstance(arm, str) else arm
+        doubtful = [i for i in (one + none_unguarded) if i.get('open')]
+        if doubtful:
+            raise Undecided(f'Lexer.lex: token `{tid}`: the condition `{short(doubtful[0]["open"][0])}` on the token id could not be decided; '
+                            'the paths it selects are not judged')
         if not both or one or none_unguarded:
             why = ('only one of lineno/line_start is updated on some path' if one else
                    'neither lineno nor line_start is updated although the token text can contain a newline' if not both else
